@@ -100,14 +100,23 @@ Fixpoint fresh_shards (n : nat) (i : nat) (m : Z) (g : igroup) : list cshard :=
   | S k => {| cs_id := m + 1; cs_pt := Z.of_nat i; cs_ix := nth_ix g i; cs_md := false |} :: fresh_shards k (S i) (m + 1) g
   end.
 
-(* CreateShardGroup(db, policy, timestamp) *)
-Definition create_sg (rep : bool) (c : cat) (rp ts : Z) : cat :=
+(* newShardGroup with the clipping repair (props/C16/fix3.patch): the cell of the CURRENT shard duration may reach into
+   live neighbouring groups created under an earlier duration; the new group is cut back to the latest live end <= ts
+   and the earliest live start > ts (running max / min over the policy's groups, order-independent). *)
+Definition clip_start (c : cat) (rp ts st : Z) : Z :=
+  fold_left (fun a g => if negb (sg_del g) && (sg_end g <=? ts) && (a <? sg_end g) then sg_end g else a) (rp_sgs c rp) st.
+Definition clip_end (c : cat) (rp ts en : Z) : Z :=
+  fold_left (fun a g => if negb (sg_del g) && (ts <? sg_start g) && (sg_start g <? a) then sg_start g else a) (rp_sgs c rp) en.
+
+(* CreateShardGroup(db, policy, timestamp); clip = false: the cell as it is (code before fix3), true: clipped *)
+Definition create_sg (rep clip : bool) (c : cat) (rp ts : Z) : cat :=
   match find_pol (c_pols c) rp with
   | None => c
   | Some p =>
     if existsb (fun g => sg_contains g ts && negb (sg_del g)) (rp_sgs c rp) then c else
-    let st := trunc ts (xp_sgd p) in
-    let en := st + xp_sgd p in
+    let st0 := trunc ts (xp_sgd p) in
+    let st := if clip then clip_start c rp ts st0 else st0 in
+    let en := if clip then clip_end c rp ts (st0 + xp_sgd p) else st0 + xp_sgd p in
     let '(c1, ig) := ig_if_needed rep c rp (xp_igd p) ts en in
     let g := {| sg_id := c_maxsg c1 + 1; sg_rp := rp; sg_start := st; sg_end := en; sg_del := false;
                 sg_shards := fresh_shards (c_ptnum c1) 0 (c_maxsh c1) ig |} in
@@ -385,10 +394,10 @@ Inductive xevent :=
 Definition with_cat (w : xworld) (c : cat) : xworld := {| x_cat := c; x_shards := x_shards w; x_ixs := x_ixs w |}.
 Definition nolog : xlog := {| l_shards := []; l_ixs := [] |}.
 
-(* repI: index-group choice repaired; repP: pruning repaired *)
-Definition xstep (repI repP : bool) (w : xworld) (e : xevent) : xworld * xlog :=
+(* repI: index-group choice repaired; repP: pruning repaired; clip: new shard groups clipped to their live neighbours *)
+Definition xstep (repI repP clip : bool) (w : xworld) (e : xevent) : xworld * xlog :=
   match e with
-  | XCreate rp ts => (with_cat w (create_sg repI (x_cat w) rp ts), nolog)
+  | XCreate rp ts => (with_cat w (create_sg repI clip (x_cat w) rp ts), nolog)
   | XMat gid l => (materialise w gid l, nolog)
   | XAlter rp d sgd igd => (match alter_cat (x_cat w) rp d sgd igd with Some c => with_cat w c | None => w end, nolog)
   | XExpand => (with_cat w (expand repI (x_cat w)), nolog)
@@ -397,10 +406,10 @@ Definition xstep (repI repP : bool) (w : xworld) (e : xevent) : xworld * xlog :=
   | XRestart pt => (xrestart w pt, nolog)
   end.
 
-Fixpoint xrun (repI repP : bool) (w : xworld) (es : list xevent) : xworld * list xlog :=
+Fixpoint xrun (repI repP clip : bool) (w : xworld) (es : list xevent) : xworld * list xlog :=
   match es with
   | [] => (w, [])
-  | e :: r => let '(w1, l1) := xstep repI repP w e in let '(w2, l2) := xrun repI repP w1 r in (w2, l1 :: l2)
+  | e :: r => let '(w1, l1) := xstep repI repP clip w e in let '(w2, l2) := xrun repI repP clip w1 r in (w2, l1 :: l2)
   end.
 
 Definition cat0 (ps : list xpol) (ptnum : nat) : cat :=
